@@ -12,6 +12,7 @@
    reset <vals> <slot>*                       -> <ev'><renewed>...   slot = <ev><wait>, wait in -NBKDC
    sc <ttl> <tmo> <horizon> S <d:r>* E <ev>*  -> value, _last_check, latch, callers, log, notifications
         r in TFNBR; ev = t:call | t:call:<cancel_at> | t:cancel:<k>
+   poll <j|l|q>*                              -> per q: events,poll_task set,live poll tasks,suspended unsubscribes,assert failed
 *)
 let st_of_char = function '1' -> STrue | '0' -> SFalse | '2' -> SNone | _ -> failwith "status code"
 let char_of_st s = string_of_int (int_of_z (st_code s))
@@ -106,6 +107,20 @@ let handle = function
       (String.concat "," (List.rev_map (fun ((s, e), h) -> zi s ^ ":" ^ zi e ^ ":" ^ show_how h) k.k_log))
       (String.concat "," (List.rev_map (fun (t, v) -> zi t ^ ":" ^ char_of_st v) k.k_notes))
       (match k.k_run with Some ((s, _), _) -> zi s | None -> "-")
+  | "poll" :: cmds ->
+    (* j = a watcher subscribes, l = a watcher unsubscribes, q = everything pending runs; one snapshot per q *)
+    let s = ref pinit in
+    let snaps = ref [] in
+    List.iter (fun w ->
+        match w with
+        | "j" -> s := pstep !s PSub
+        | "l" -> s := pstep !s PUnsub
+        | "q" -> s := psettle !s;
+          snaps := Printf.sprintf "%d,%s,%d,%d,%s" (int_of_nat !s.p_events)
+              (match !s.p_poll with Some _ -> "1" | None -> "0") (int_of_nat (live_pollers !s))
+              (List.length !s.p_waiting) (word_of_bool !s.p_err) :: !snaps
+        | _ -> failwith "poll cmd") cmds;
+    String.concat "|" (List.rev !snaps)
   | _ -> failwith "unknown command"
 
 let () = main_loop handle
